@@ -66,7 +66,15 @@ func VH_blank(n int) {
 	}
 	var ins []rune
 	nl := 0
-	switch verifChoice(7) {
+	switch verifChoice(11) {
+	case 7:
+		ins = []rune{47, 42, 42, 42, 47} // /***/
+	case 8:
+		ins = []rune{47, 42, 42, 32, 120, 32, 42, 42, 47} // /** x **/
+	case 9:
+		ins, nl = []rune{47, 42, 42, 10, 42, 42, 42, 47}, 1 // /**\n***/
+	case 10:
+		ins = []rune{47, 42, 47, 42, 47} // /*/*/
 	case 0:
 		ins = []rune{32}
 	case 1:
